@@ -251,6 +251,10 @@ def _err_site(msg: str) -> str:
 def check_progress(sc: dict, obs: dict) -> list[dict]:
     """R5: run ended at global quiescence with every client call answered."""
     w: list[dict] = []
+    if obs.get('end') == 'livelock':
+        blocked = [c for c, st in obs.get('client_threads', {}).items() if st == 'blocked']
+        spinning = sorted({(m[1], m[2], m[3]) for m in obs.get('trace_tail', []) if m and m[0] == 'T'})
+        w.append({'kind': 'progress:livelock', 'clients_blocked': blocked, 'spinning_threads': [list(x) for x in spinning][:8]})
     if obs.get('end') == 'quiescent':
         for c, st in obs.get('client_threads', {}).items():
             if st == 'blocked':
